@@ -386,7 +386,7 @@ pub fn gen_graph_project(rng: &mut Rng, tier: Tier, ptr: usize) -> Project {
             }
             let t = *rng.pick(&owners);
             let tm = p.items[t].module;
-            let vname = format!("{}Vftable", p.items[t].name);
+            let vname = crate::inventory::vftable_name(&p.items[t].name);
             let vty = Ty::Name(vname.clone());
             let m = rng.below(cfg.modules);
             if m != tm {
@@ -1348,7 +1348,7 @@ pub fn completeness(
                 let pyxis::grammar::TypeField::Vftable(fs) = &s.field else {
                     continue;
                 };
-                let table = format!("{}Vftable", d.name.as_str());
+                let table = crate::inventory::vftable_name(d.name.as_str());
                 let Some(slots) = inv.struct_fields.get(&table) else {
                     return Err((
                         "item-left-out".into(),
